@@ -12,7 +12,7 @@ Proof.
   destruct (okind_eqb k k'); [|discriminate]. intros H [H1 H2]. injection H as <- <-. split; assumption.
 Qed.
 
-(* one Get of the repaired reader on a reader that holds no fetched record *)
+(* one Get of the reader that keeps the position of its end-of-data decision (reload = false), on a reader that holds no fetched record *)
 Lemma get_nc r tr b : r_cached r = false -> mono_from b tr -> r_pos r <= b ->
   match rd_get false r tr with
   | (GRec i, r', tr') => i = r_pos r /\ r_pos r' = r_pos r /\ r_cached r' = true /\ r_open r' = true /\
@@ -54,13 +54,11 @@ Proof.
   intros Hc Ho Hm Hp. unfold rd_next, rd_get. destruct r as [p o ca]. cbn -[Nat.ltb Nat.eqb Nat.min Nat.leb] in *. subst o ca.
   destruct (take OG tr) as [[c tr2]|] eqn:E2; [|exact I].
   destruct (take_mono _ _ _ _ _ E2 Hm) as [Hbc Hm2]. cbn -[Nat.ltb Nat.eqb Nat.min Nat.leb].
-  destruct (take OG tr2) as [[c2 tr2']|] eqn:E2'; [|exact I].
-  destruct (take_mono _ _ _ _ _ E2' Hm2) as [Hbc2 Hm2'].
-  destruct (take ON tr2') as [[c3 tr3]|] eqn:E3; [|exact I].
-  destruct (take_mono _ _ _ _ _ E3 Hm2') as [Hcc Hm3]. cbn -[Nat.ltb Nat.eqb Nat.min Nat.leb]. repeat (split; [reflexivity|]). exists c3. split; [exact Hm3|lia].
+  destruct (take ON tr2) as [[c3 tr3]|] eqn:E3; [|exact I].
+  destruct (take_mono _ _ _ _ _ E3 Hm2) as [Hcc Hm3]. cbn -[Nat.ltb Nat.eqb Nat.min Nat.leb]. repeat (split; [reflexivity|]). exists c3. split; [exact Hm3|lia].
 Qed.
 
-(* the repaired reader never steps over a record: what a read-to-end delivers is the run of consecutive indices
+(* the reader that keeps the position of its end-of-data decision never steps over a record: what a read-to-end delivers is the run of consecutive indices
    starting at its position, and the position it is left with is the first index it did not deliver *)
 Lemma read_loop_fixed fuel : forall r tr b, r_cached r = false -> mono_from b tr -> r_pos r <= b ->
   match read_loop fuel false r tr with
